@@ -75,8 +75,13 @@ def exact_dm(g, n, F, freqs):
     return out
 
 
-def gen_freqs(r, n):
-    kind = r.choice(["none", "flatarr", "skew", "zeros"])
+FREQ_KINDS = ("none", "flatarr", "skew", "zeros", "tiny")
+
+
+def gen_freqs(r, n, kinds=FREQ_KINDS):
+    """prior allele frequencies: None, the explicit flat vector, skewed (within ~21:1), with zero entries, or `tiny`:
+    one or more entries log-uniform in 1e-3 .. 1e-12 next to ordinary ones (a dynamic range of up to 12 decimal orders)"""
+    kind = r.choice(list(kinds))
     if kind == "none":
         return kind, None
     if kind == "flatarr":
@@ -85,7 +90,46 @@ def gen_freqs(r, n):
     if kind == "zeros" and n >= 2:
         for i in r.sample(range(n), r.randint(1, n - 1)):
             v[i] = 0.0
+    if kind == "tiny" and n >= 2:
+        for i in r.sample(range(n), r.randint(1, n - 1)):
+            v[i] = 10.0 ** (-r.uniform(3.0, 12.0))
     return kind, v / v.sum()
+
+
+def gen_inbreeding(r):
+    """inbreeding coefficients beyond the fixed grid: log-uniform in (1e-9, 1e-2) and 1 - 10^-k"""
+    if r.random() < 0.5:
+        return 10.0 ** (-r.uniform(2.0, 9.0))
+    return 1.0 - 10.0 ** (-r.choice([1, 2, 3, 4, 6, 9, 12, 15]))
+
+
+def lgamma_resolution(ploidy, F, scale=1.0):
+    """float64 resolution of the code's log-gamma form of the Dirichlet-multinomial: the pmf is evaluated as
+    lgamma(A) - lgamma(ploidy + A) + ... with A = sum of the dispersions = scale (1 - F) / F; for F -> 0 the two terms are of
+    magnitude A log A and cancel, so the result cannot be better than a few units in the last place of that magnitude
+    (IEEE-754 evaluation is modelled, not verified: DESIGN section 3).  Returned: 8 ulp(lgamma(ploidy + A)); 0 for F = 0."""
+    F = float(F)
+    if F <= 0.0:
+        return 0.0
+    A = scale * (1.0 - F) / F
+    try:
+        m = abs(math.lgamma(ploidy + A)) + abs(math.lgamma(A)) if A > 0 else 0.0
+    except (OverflowError, ValueError):
+        return math.inf
+    return 8.0 * math.ulp(m)
+
+
+def f0_product_underflows(g, freqs):
+    """F = 0 with explicit frequencies: the code multiplies the frequencies of the genotype's alleles in float64 before taking
+    the log; below ~1e-308 that product is 0 (denormal from 1e-308 to 1e-324) although the exact value is positive"""
+    if freqs is None:
+        return False
+    lp = 0.0
+    for a in g:
+        if freqs[a] <= 0:
+            return False
+        lp += math.log10(freqs[a])
+    return lp < -300.0
 
 
 def ftoks(freqs, n):
@@ -98,6 +142,54 @@ def prob(x):
     if math.isnan(x):
         return math.nan
     return math.exp(x)
+
+
+def observe_dosage_dtypes(chk):
+    """dtype of the dosage buffer each assemble-sampler call site hands to `get_haplotype_dosage` (and then to the
+    assemble prior): the callers run as plain Python with the module-level name replaced by a recording wrapper"""
+    from mchap.assemble import mutation, structural, tempering
+    from mchap.assemble.likelihood import log_likelihood
+    import mchap.jitutils as ju
+    seen = []
+
+    def wrap(site):
+        def rec(dosage, genotype, interval=None):
+            seen.append((site, np.dtype(dosage.dtype)))
+            return ju.get_haplotype_dosage(dosage, genotype, interval)
+        return rec
+    g = np.array([[0, 1, 0], [0, 1, 0], [1, 1, 0], [1, 0, 1]], dtype=np.int8)
+    reads = np.full((2, 3, 2), 0.5)
+    counts = np.array([1, 2], dtype=np.int64)
+    llk = float(log_likelihood(reads, g, read_counts=counts))
+    labels = np.array([[0, 0], [0, 0], [2, 0], [3, 3]], dtype=np.int64)
+    sites = [
+        ("mutation.base_step", mutation, lambda: mutation.base_step.py_func(g.copy(), reads, llk, 0, 0, 2, math.log(8), inbreeding=0.1, temp=1.0,
+                                                                            read_counts=counts, cache=None)),
+        ("structural.interval_step", structural, lambda: structural.interval_step.py_func(g.copy(), reads, llk, math.log(8), inbreeding=0.1,
+                                                                                          interval=(0, 1), step_type=1, temp=1.0,
+                                                                                          read_counts=counts, cache=None)),
+        ("structural.dosage_step_n_options", structural, lambda: structural.dosage_step_n_options.py_func(labels)),
+        ("structural.recombination_step_n_options", structural, lambda: structural.recombination_step_n_options.py_func(labels)),
+        ("tempering.chain_swap_step", tempering, lambda: tempering.chain_swap_step.py_func(g.copy(), llk, 1.0, g[::-1].copy(), llk, 0.5,
+                                                                                           math.log(8), 0.1)),
+    ]
+    for site, mod, call in sites:
+        orig = getattr(mod, "get_haplotype_dosage", None)
+        if orig is None:
+            chk.count(f"dosage-buffer:{site}:not-observable")
+            continue
+        setattr(mod, "get_haplotype_dosage", wrap(site))
+        try:
+            call()
+        except Exception as e:   # noqa: BLE001  (C01 drives these moves; here only the buffer dtype is read off)
+            chk.count(f"dosage-buffer:{site}:not-observable")
+            chk.notes.append(f"dosage buffer of {site} not observed: {type(e).__name__}: {str(e)[:120]}")
+        finally:
+            setattr(mod, "get_haplotype_dosage", orig)
+    for site, dt in seen:
+        chk.count(f"dosage-buffer:{site}:{dt}")
+    dts = sorted({dt for _, dt in seen}, key=str)
+    return [dt.type for dt in dts] or [np.int64]
 
 
 def run(tier, replay=None):
@@ -114,90 +206,183 @@ def run(tier, replay=None):
     r = C.rng(PROP)
 
     if tier == "warm":
-        spaces = [(2, 2), (3, 2)]
+        spaces = [(2, 2), (3, 2), (40, 2)]
     elif tier == "quick":
-        spaces = [(p, n) for p in (1, 2, 3, 4, 6) for n in (1, 2, 3, 5)] + [(5, 4), (8, 3), (2, 12)]
+        spaces = [(p, n) for p in (1, 2, 3, 4, 6) for n in (1, 2, 3, 5)] + [(5, 4), (8, 3), (2, 12), (40, 2), (24, 3), (2, 300)]
     else:
-        spaces = [(p, n) for p in range(1, 9) for n in range(1, 7)] + [(12, 3), (2, 40), (3, 20), (10, 4)]
+        spaces = [(p, n) for p in range(1, 9) for n in range(1, 7)] + [(12, 3), (2, 40), (3, 20), (10, 4), (40, 2), (24, 3), (60, 2),
+                                                                      (2, 300), (3, 60)]
+
+    # the buffer dtypes the assemble sampler hands to get_haplotype_dosage / the assemble prior (observed, see below)
+    caller_dtypes = observe_dosage_dtypes(chk)
+    int_F_done = False
+
+    def p_ok(x, y, res, rel=1e-9):
+        """probability-scale agreement (Appendix A) plus the float64 resolution of the log-gamma form (0 unless F is tiny)"""
+        if not (math.isfinite(x) and math.isfinite(y)):
+            return False
+        return abs(x - y) <= (rel + res) * max(abs(x), abs(y)) + 1e-12
+
+    def l_ok(x, y, res):
+        """log-scale agreement; -inf only with -inf, NaN with nothing"""
+        if math.isnan(x) or math.isnan(y):
+            return False
+        if math.isinf(x) or math.isinf(y):
+            return x == y
+        return abs(x - y) <= 1e-9 * (1 + abs(y)) + res
+
+    GDT = [np.int64, np.int64, np.int32, np.int16, np.int8]
+
+    def as_array(gl, n):
+        dt = r.choice(GDT)
+        if dt == np.int8 and n > 127:
+            dt = np.int32
+        return np.array(gl, dtype=dt)
 
     for (ploidy, n) in spaces:
         genos = list(itertools.combinations_with_replacement(range(n), ploidy))
+        large = len(genos) > 2000      # values on a sample, the sum over the whole space from the implementation
         configs = []
-        for F in INBREEDING:
-            if tier == "warm" and F not in (0.0, 0.25):
-                continue
-            for _ in range(2 if tier != "thorough" else 3):
-                configs.append((F, *gen_freqs(r, n)))
+        if large:
+            configs = [(0.0, *gen_freqs(r, n)), (0.25, *gen_freqs(r, n)), (gen_inbreeding(r), *gen_freqs(r, n, kinds=("tiny", "skew")))]
+        else:
+            for F in INBREEDING:
+                if tier == "warm" and F not in (0.0, 0.25):
+                    continue
+                for _ in range(2 if tier != "thorough" else 3):
+                    configs.append((F, *gen_freqs(r, n)))
+            # inbreeding off the grid (log-uniform towards 0, 1 - 10^-k) with the full range of frequency kinds
+            for _ in range(1 if tier == "warm" else (3 if tier != "thorough" else 5)):
+                configs.append((gen_inbreeding(r), *gen_freqs(r, n)))
         for (F, kind, freqs) in configs:
+            res = lgamma_resolution(ploidy, F, 1.0 if freqs is None else float(freqs.sum()))
+            fkey = F if F in INBREEDING else ("log-uniform(1e-9,1e-2)" if F < 0.5 else "1-10^-k")
+            if res > 1e-9:
+                chk.count("numeric:lgamma-resolution-above-1e-9(tolerance widened to 8 ulp of the cancelling terms)")
+            sampled = set(genos) if not large else set(r.sample(genos, 150))
+            shuffled = {}
             lines = []
             for g in genos:
-                lines.append(" ".join(["prior.call", str(n), C.rat_str(F)] + ftoks(freqs, n) + [str(a) for a in g]))
-            ans = drv.ask(lines)
-            impl = {}
+                gl = list(g)
+                if r.random() < 0.5:
+                    r.shuffle(gl)
+                shuffled[g] = gl
+                if g in sampled:
+                    lines.append(" ".join(["prior.call", str(n), C.rat_str(F)] + ftoks(freqs, n) + [str(a) for a in gl]))
+            ans = dict(zip([g for g in genos if g in sampled], zip(drv.ask(lines), lines)))
+            impl, impl_log = {}, {}
             total = 0.0
-            for g, a, line in zip(genos, ans, lines):
-                garr = np.array(g, dtype=np.int64)
-                lp = call_prior(garr, n, inbreeding=F, frequencies=freqs)
+            for g in genos:
+                gl = shuffled[g]
+                garr = as_array(gl, n)
+                case = {"genotype": gl, "dtype": str(garr.dtype), "n_alleles": n, "inbreeding": F,
+                        "frequencies": None if freqs is None else freqs.tolist()}
+                try:
+                    lp = float(call_prior(garr, n, inbreeding=F, frequencies=freqs))
+                except Exception as e:   # noqa: BLE001
+                    chk.violation(f"calling log_genotype_prior raises on a valid genotype: {type(e).__name__}: {e}", case, "C05/call_prior/raises")
+                    lp = math.nan
                 pi = prob(lp)
                 impl[g] = pi
+                impl_log[g] = lp
                 total += pi
-                pm = float(C.parse_rat(a))
-                nontriv = len(set(g)) >= 2 and len(set(g)) < len(g) and (F > 0 or kind in ("skew", "zeros"))
-                chk.count(f"call:F={F}"); chk.count(f"call:freq={kind}")
+                chk.count(f"call:F={fkey}"); chk.count(f"call:freq={kind}"); chk.count(f"call:dtype={garr.dtype}")
+                if gl != list(g):
+                    chk.count("call:unsorted-genotype")
+                if g not in sampled:
+                    continue
+                a, line = ans[g]
+                am = C.parse_rat(a)
+                pm = float(am)
+                nontriv = len(set(g)) >= 2 and len(set(g)) < len(g) and (F > 0 or kind in ("skew", "zeros", "tiny"))
                 chk.case(line, nontriv, sample={"request": line[:200], "impl": pi, "model": pm})
-                case = {"genotype": list(g), "n_alleles": n, "inbreeding": F, "frequencies": None if freqs is None else freqs.tolist()}
-                if not C.close(pi, pm):
-                    chk.disagreement("calling log_genotype_prior != model callPrior", {**case, "impl": pi, "model": pm})
-                truth = float(exact_dm(list(g), n, F, freqs))
-                if not C.close(pi, truth):
+                underflow = F == 0 and f0_product_underflows(g, freqs)
+                if underflow:
+                    # numerical range of the implementation, not a property failure: the float64 product of the frequencies is 0 / denormal
+                    chk.count("numeric:F0-frequency-product-underflow(observed, not compared in log space)")
+                if not p_ok(pi, pm, res) or not (underflow or l_ok(lp, C.frac_log(am), res)):
+                    chk.disagreement("calling log_genotype_prior != model callPrior", {**case, "impl": pi, "model": pm, "impl_log": lp})
+                ex = exact_dm(list(g), n, F, freqs)
+                truth = float(ex)
+                if not p_ok(pi, truth, res) or not (underflow or l_ok(lp, C.frac_log(ex), res)):
                     chk.violation("genotype prior differs from the (Dirichlet-)multinomial with dispersion f(1-F)/F",
-                                  {**case, "impl": pi, "expected": truth}, "C05/call_prior/formula")
+                                  {**case, "impl": pi, "expected": truth, "impl_log": lp, "expected_log": C.frac_log(ex)}, "C05/call_prior/formula")
                 if kind == "zeros" and any(freqs[a] == 0 for a in g) and pi != 0.0:
                     chk.violation("genotype containing a zero-frequency allele has positive prior", {**case, "impl": pi},
                                   "C05/call_prior/zero-frequency")
-            if not (abs(total - 1.0) <= 1e-9):     # a NaN total is a failure too
+                if not int_F_done and len(set(g)) >= 2 and kind != "none" and F == 0.0:
+                    # the CLI hands a Python float; the default argument is the int 0: same value required
+                    int_F_done = True
+                    chk.count("call:inbreeding-as-int-0")
+                    try:
+                        lp0 = float(call_prior(garr, n, inbreeding=0, frequencies=freqs))
+                        la0 = float(allele_prior(garr, 0, n, inbreeding=0, frequencies=freqs))
+                        la = float(allele_prior(garr, 0, n, inbreeding=0.0, frequencies=freqs))
+                        d0 = np.array([gl.count(x) if gl.index(x) == i else 0 for i, x in enumerate(gl)], dtype=np.int64)
+                        ls0 = float(asm_prior(d0, math.log(n), inbreeding=0)); ls = float(asm_prior(d0, math.log(n), inbreeding=0.0))
+                        if not (l_ok(lp0, lp, 0.0) and l_ok(la0, la, 0.0) and l_ok(ls0, ls, 0.0)):
+                            chk.violation("a prior changes when the inbreeding coefficient 0 is given as an int instead of a float",
+                                          {**case, "call": [lp0, lp], "allele": [la0, la], "assemble": [ls0, ls]}, "C05/inbreeding-int-zero")
+                    except Exception as e:   # noqa: BLE001
+                        chk.violation(f"a prior function raises for inbreeding given as the int 0: {type(e).__name__}: {e}", case,
+                                      "C05/inbreeding-int-zero")
+            if not (abs(total - 1.0) <= 1e-9 + res):     # a NaN total is a failure too
                 chk.violation(f"genotype prior sums to {total!r} over all unordered genotypes",
                               {"ploidy": ploidy, "n_alleles": n, "inbreeding": F,
                                "frequencies": None if freqs is None else freqs.tolist(), "sum": total},
                               "C05/call_prior/sum")
+            chk.count("call:sum-over-space" + (":large" if large else ""))
             # ---- conditional prior for every (genotype, position): sub-sample positions in large spaces
             sub = genos if len(genos) <= 60 else r.sample(genos, 60)
             lines, meta = [], []
             for g in sub:
-                for k in range(ploidy):
-                    lines.append(" ".join(["prior.allele", str(n), C.rat_str(F)] + ftoks(freqs, n) + [str(k)] + [str(a) for a in g]))
-                    meta.append((g, k))
+                gl = list(g)
+                if r.random() < 0.5:
+                    r.shuffle(gl)
+                for k in (range(ploidy) if ploidy <= 8 else sorted(r.sample(range(ploidy), 4))):
+                    lines.append(" ".join(["prior.allele", str(n), C.rat_str(F)] + ftoks(freqs, n) + [str(k)] + [str(a) for a in gl]))
+                    meta.append((g, gl, k))
             ans = drv.ask(lines)
-            for (g, k), a, line in zip(meta, ans, lines):
-                garr = np.array(g, dtype=np.int64)
-                ci = prob(allele_prior(garr, k, n, inbreeding=F, frequencies=freqs))
+            for (g, gl, k), a, line in zip(meta, ans, lines):
+                garr = as_array(gl, n)
+                case = {"genotype": gl, "dtype": str(garr.dtype), "position": k, "n_alleles": n, "inbreeding": F,
+                        "frequencies": None if freqs is None else freqs.tolist()}
+                try:
+                    ci = prob(allele_prior(garr, k, n, inbreeding=F, frequencies=freqs))
+                except Exception as e:   # noqa: BLE001
+                    chk.violation(f"log_genotype_allele_prior raises on a valid genotype: {type(e).__name__}: {e}", case, "C05/allele_prior/raises")
+                    continue
                 cm = float(C.parse_rat(a))
                 chk.count("allele-conditional")
                 chk.case(line, len(set(g)) < len(g) and F > 0)
-                case = {"genotype": list(g), "position": k, "n_alleles": n, "inbreeding": F,
-                        "frequencies": None if freqs is None else freqs.tolist()}
-                if not C.close(ci, cm):
+                if not p_ok(ci, cm, res):
                     chk.disagreement("log_genotype_allele_prior != model allelePrior", {**case, "impl": ci, "model": cm})
-                # exact conditional from the implementation's own genotype prior: pi_o(g) = P(g) / perms(g)
-                def ordered(gg):
+                # exact conditional from the implementation's own genotype prior: pi_o(g) = P(g) / perms(g), in log space
+                def ordered_log(gg):
                     gs = tuple(sorted(gg))
                     perms = math.factorial(ploidy)
                     for a_ in set(gs):
                         perms //= math.factorial(gs.count(a_))
-                    return impl[gs] / perms
-                denom = 0.0
+                    return impl_log[gs] - math.log(perms)
+                variants = []
                 for y in range(n):
-                    gy = list(g); gy[k] = y
-                    denom += ordered(gy)
-                if denom > 0:
-                    cond = ordered(g) / denom
-                    if not C.close(ci, cond, rel=1e-8):
+                    gy = list(gl); gy[k] = y
+                    variants.append(gy)
+                if F == 0 and any(f0_product_underflows(gy, freqs) for gy in variants):
+                    chk.count("numeric:F0-frequency-product-underflow(conditional not derived)")
+                    continue
+                ols = [ordered_log(gy) for gy in variants]
+                top = max(ols)
+                if math.isfinite(top) and not any(math.isnan(x) for x in ols):
+                    denom = sum(math.exp(x - top) for x in ols)
+                    cond = math.exp(ordered_log(gl) - top) / denom
+                    if not p_ok(ci, cond, 2 * res, rel=1e-8):
                         chk.violation("single-allele conditional prior is not the conditional of the genotype prior",
                                       {**case, "impl": ci, "expected": cond}, "C05/allele_prior/conditional")
             # ---- assemble prior (flat over U = n haplotypes) == call prior with flat frequencies
             if kind == "none":
                 lines, meta = [], []
-                for g in genos:
+                for g in (genos if not large else sorted(sampled)):
                     # a dosage vector as get_haplotype_dosage gives it: multiplicity at first occurrence, 0 elsewhere
                     gl = list(g); r.shuffle(gl)
                     dosage = [gl.count(x) if gl.index(x) == i else 0 for i, x in enumerate(gl)]
@@ -205,24 +390,25 @@ def run(tier, replay=None):
                     meta.append((g, dosage))
                 ans = drv.ask(lines)
                 for (g, dosage), a, line in zip(meta, ans, lines):
-                    ai = prob(asm_prior(np.array(dosage, dtype=np.int8), math.log(n), inbreeding=F))
+                    ddt = r.choice(caller_dtypes + [np.int8])
+                    ai = prob(asm_prior(np.array(dosage, dtype=ddt), math.log(n), inbreeding=F))
                     am = float(C.parse_rat(a))
-                    chk.count("assemble-prior")
+                    chk.count("assemble-prior"); chk.count(f"assemble-prior:dosage-dtype={np.dtype(ddt)}")
                     chk.case(line, len(set(g)) < len(g) and F > 0)
-                    case = {"genotype": list(g), "dosage": dosage, "unique_haplotypes": n, "inbreeding": F}
-                    if not C.close(ai, am):
+                    case = {"genotype": list(g), "dosage": dosage, "dosage_dtype": str(np.dtype(ddt)), "unique_haplotypes": n, "inbreeding": F}
+                    if not p_ok(ai, am, res):
                         chk.disagreement("assemble log_genotype_prior != model assemblePrior", {**case, "impl": ai, "model": am})
-                    if not C.close(ai, impl[g]):
+                    if not p_ok(ai, impl[g], 2 * res):
                         chk.violation("assemble prior != call prior with flat frequencies over all haplotypes",
                                       {**case, "assemble": ai, "call": impl[g]}, "C05/assemble_prior/flat-call")
 
     # ---------------- assemble prior over large haplotype spaces (many SNVs): values, not sums
-    n_big = {"warm": 5, "quick": 400, "thorough": 4000}[tier]
+    n_big = {"warm": 5, "quick": 500, "thorough": 5000}[tier]
     lines, meta = [], []
     for _ in range(n_big):
-        bits = r.choice([1, 2, 5, 10, 20, 27, 30, 40, 50, 60])
+        bits = r.choice([1, 2, 5, 10, 20, 27, 30, 40, 50, 60, 64, 100, 300, 700])
         U = 2 ** bits if r.random() < 0.7 else 3 ** r.randint(1, 37)
-        F = r.choice(INBREEDING + [0.999])
+        F = r.choice(INBREEDING + [0.999]) if r.random() < 0.7 else gen_inbreeding(r)
         ploidy = r.choice([2, 3, 4, 6, 8, 12])
         # random partition of the ploidy into doses (excess of large doses)
         doses, left = [], ploidy
@@ -238,14 +424,29 @@ def run(tier, replay=None):
     ans = drv.ask(lines)
     for (U, F, ploidy, doses, dosage), a, line in zip(meta, ans, lines):
         logU = math.log(U)
-        ai = prob(asm_prior(np.array(dosage, dtype=np.int8), logU, inbreeding=F))
+        ddt = r.choice(caller_dtypes + [np.int8])
+        res = lgamma_resolution(ploidy, F)
+        case = {"unique_haplotypes": U, "inbreeding": F, "dosage": dosage, "dosage_dtype": str(np.dtype(ddt))}
+        try:
+            li = float(asm_prior(np.array(dosage, dtype=ddt), logU, inbreeding=F))
+        except Exception as e:   # noqa: BLE001
+            chk.violation(f"assemble log_genotype_prior raises: {type(e).__name__}: {e}", case, "C05/assemble_prior/raises")
+            continue
         am = C.parse_rat(a)
-        chk.count(f"assemble-prior:big:log2U~{int(math.log2(U)) // 10 * 10}")
+        chk.count(f"assemble-prior:big:log2U~{min(int(math.log2(U)) // 10 * 10, 100) if U < 2 ** 100 else ('100+' if U < 2 ** 300 else '300+')}")
+        chk.count("assemble-prior:big:F=" + ("grid" if F in INBREEDING + [0.999] else ("log-uniform(1e-9,1e-2)" if F < 0.5 else "1-10^-k")))
+        if res > 1e-9:
+            chk.count("numeric:lgamma-resolution-above-1e-9(tolerance widened to 8 ulp of the cancelling terms)")
         chk.case(line, max(doses) >= 3 and F > 0 and U > 2 ** 20)
-        case = {"unique_haplotypes": U, "inbreeding": F, "dosage": dosage}
         lm = C.frac_log(am)
-        li = math.log(ai) if ai > 0 else -math.inf
-        if not C.close_log(li, lm, rel=1e-9):
+
+        def lclose(x, y):
+            if math.isnan(x) or math.isnan(y):
+                return False
+            if math.isinf(x) or math.isinf(y):
+                return x == y
+            return abs(x - y) <= 1e-9 * (1 + abs(y)) + res
+        if not lclose(li, lm):
             chk.disagreement("assemble log_genotype_prior != model assemblePrior (large haplotype space)", {**case, "impl_log": li, "model_log": lm})
         # the documented Dirichlet-multinomial with flat dispersion (1-F)/(F U), independently
         Ff = Fraction(float(F))
@@ -261,7 +462,7 @@ def run(tier, replay=None):
             for d in doses:
                 truth *= rising(al, d)
         lt = C.frac_log(truth)
-        if not C.close_log(li, lt, rel=1e-9):
+        if not lclose(li, lt):
             chk.violation("assemble genotype prior differs from the Dirichlet-multinomial with flat dispersion over all haplotypes",
                           {**case, "impl_log": li, "expected_log": lt}, "C05/assemble_prior/formula")
         # ... and equals the call prior with flat frequencies over the same number of haplotypes
@@ -269,10 +470,73 @@ def run(tier, replay=None):
         for i, d in enumerate(doses):
             g += [i] * d
         if U >= len(doses) and U < 2 ** 62:
-            lc = float(call_prior(np.array(g, dtype=np.int64), U, inbreeding=F, frequencies=None))
-            if not C.close_log(li, lc, rel=1e-9):
+            r.shuffle(g)
+            lc = float(call_prior(np.array(g, dtype=r.choice([np.int64, np.int32])), U, inbreeding=F, frequencies=None))
+            if not (abs(li - lc) <= 1e-9 * (1 + abs(lc)) + 2 * res):
                 chk.violation("assemble prior != call prior with flat frequencies over all haplotypes",
                               {**case, "assemble_log": li, "call_log": lc}, "C05/assemble_prior/flat-call")
+
+    # ---------------- large pools (regression stream for F16): ploidy 100-200, at most two distinct haplotypes, so one of them
+    # has more than 127 copies; get_haplotype_dosage with a buffer of the dtype the sampler's call sites use, then the
+    # assemble prior and the permutation count on that very vector
+    n_pool = {"warm": 2, "quick": 40, "thorough": 400}[tier]
+    for it in range(n_pool):
+        ploidy = r.randint(100, 200)
+        nb = r.randint(1, 3)
+        h0 = [r.randrange(2) for _ in range(nb)]
+        h1 = list(h0); h1[r.randrange(nb)] ^= 1
+        minor = r.choice([0, 0, 1, 2, r.randint(1, ploidy // 2)])
+        if ploidy - minor < 128 and r.random() < 0.7:
+            minor = r.randint(0, max(0, ploidy - 129)) if ploidy >= 129 else 0
+        g = [list(h0)] * (ploidy - minor) + [list(h1)] * minor
+        r.shuffle(g)
+        as_labels = it % 3 == 2        # the interval moves hand (ploidy, 2) int64 label arrays instead of int8 haplotypes
+        garr = np.array(g, dtype=np.int8)
+        if as_labels:
+            first = {}
+            lab = [first.setdefault(tuple(h), i) for i, h in enumerate(g)]
+            garr = np.array([[x, 0] for x in lab], dtype=np.int64)
+        truth = [sum(1 for h2 in g if h2 == h) if g.index(h) == i else 0 for i, h in enumerate(g)]
+        F = r.choice([0.0, 0.1, 0.5]) if it % 2 else gen_inbreeding(r)
+        U = 2 ** nb if not as_labels else 2 ** r.choice([2, 10, 40])
+        for ddt in caller_dtypes:
+            d = np.empty(ploidy, dtype=ddt)
+            case = {"ploidy": ploidy, "copies": [ploidy - minor, minor], "buffer_dtype": str(np.dtype(ddt)), "labels_input": as_labels,
+                    "inbreeding": F, "unique_haplotypes": U}
+            chk.count(f"large-pool:dosage-buffer={np.dtype(ddt)}"); chk.count("large-pool:max-copies>127" if ploidy - minor > 127 else "large-pool:max-copies<=127")
+            chk.case(("large-pool", ploidy, minor, nb, str(np.dtype(ddt)), as_labels, F), minor > 0)
+            try:
+                get_haplotype_dosage(d, garr)
+                lperm = float(ln_equivalent_permutations(d))
+                li = float(asm_prior(d, math.log(U), inbreeding=F))
+            except Exception as e:   # noqa: BLE001
+                chk.violation(f"dosage / assemble prior of a large pool raises: {type(e).__name__}: {e}", case, "C05/large-pool/raises")
+                continue
+            if d.tolist() != truth:
+                chk.violation("get_haplotype_dosage, with the dosage buffer the assemble sampler allocates, is not the "
+                              "multiplicity-at-first-occurrence vector for a pool with more than 127 copies of one haplotype",
+                              {**case, "impl": [x for x in d.tolist() if x != 0], "expected": [x for x in truth if x != 0]}, "C05/dosage")
+                continue
+            doses = [x for x in truth if x > 0]
+            coef = Fraction(math.factorial(ploidy))
+            for x in doses:
+                coef /= math.factorial(x)
+            if not C.close_log(lperm, C.frac_log(coef)):
+                chk.violation("ln_equivalent_permutations of a large pool is not log(p!/prod d_i!)",
+                              {**case, "impl": lperm, "expected": C.frac_log(coef)}, "C05/perms/large-pool")
+            Ff = Fraction(float(F))
+            if Ff == 0:
+                tr = coef / Fraction(U) ** ploidy
+            else:
+                A = (1 - Ff) / Ff
+                tr = coef / rising(A, ploidy)
+                for x in doses:
+                    tr *= rising(A / U, x)
+            lt = C.frac_log(tr)
+            res = lgamma_resolution(ploidy, F)
+            if math.isnan(li) or not (abs(li - lt) <= 1e-9 * (1 + abs(lt)) + res):
+                chk.violation("assemble genotype prior of a large pool differs from the Dirichlet-multinomial with flat dispersion",
+                              {**case, "impl_log": li, "expected_log": lt}, "C05/assemble_prior/formula")
 
     # ---------------- permutations count and dosage extraction
     lines, meta = [], []
